@@ -70,6 +70,10 @@ def specs(tier, seed):
     for o1 in firsts:
         out.append({"W": W, "depth": depth, "first": list(o1)})
     out += invivo_specs(tier)
+    # the rejection sampler never gives up: however many proposals are rejected in a row it proposes again
+    for nrej in ((150, 1500, 15000) if tier == "quick" else (150, 1500, 15000, 150000)):
+        for ratio in (1e-3, 1e-6):
+            out.append({"persist": nrej, "ratio": ratio})
     return out
 
 
@@ -188,9 +192,38 @@ def successors(sim, ld, ref, ops):
             yield op, c, apply_ref(ref, op)
 
 
+def run_persist(spec):
+    """One scheduled execution: the light candidate is proposed and rejected `persist` times in a row (an event of
+    positive probability), then the default answers are taken.  choose_random must keep proposing and finally
+    return a candidate whose acceptance test succeeded."""
+    from eonmc.core import run_once
+    EoN, sim = import_eon()
+    A = Acc()
+    nrej = spec["persist"]
+    ld = sim._ListDict_(weighted=True)
+    ld.update("light", weight_increment=spec["ratio"]); ld.update("heavy", weight_increment=1.0)
+    # choice index 0 = 'light'; comparison outcome 1 = "draw >= weight/max" = rejected; afterwards: propose 'heavy' (1), accept
+    prefix = tuple([0, 1] * nrej) + (1,)
+    r = run_once(sim, lambda orc: ld.choose_random(), prefix, close_loops=False, heap=False, max_steps=4 * nrej + 100, allow_short=True)
+    A.execs = 1; A.evals = 1; A.states.add(("persist", nrej, spec["ratio"])); A.trans.add(("persist", nrej)); A.nontrivial.add(("persist", nrej, spec["ratio"]))
+    ntry = sum(1 for t in r.trace if t[0] == "choice")
+    A.outcomes.add((ntry, repr(r.out)))
+    hist = ["%d consecutive rejected proposals of 'light' (weight %g, heavy weight 1)" % (nrej, spec["ratio"])]
+    if r.exc is not None:
+        A.add(V("C16", "_ListDict_", "rejections", "select_exception", "after %s choose_random raised %r" % (hist[0], r.exc), hist))
+    elif r.short is not None or ntry != nrej + 1:
+        A.add(V("C16", "_ListDict_", "rejections", "gives_up", "choose_random stopped proposing after %d attempts and returned %r although every proposal so far had been rejected (%d rejections were scheduled): the returned candidate is not drawn in proportion to the weights" % (ntry, r.out, nrej), hist))
+    elif r.out != "heavy":
+        A.add(V("C16", "_ListDict_", "rejections", "proportion", "after %s the accepted proposal was 'heavy' but %r was returned" % (hist[0], r.out), hist))
+    A.sample = {"spec": spec, "proposals": ntry}
+    return A.result()
+
+
 def run_spec(spec):
     if spec.get("invivo"):
         return run_invivo(spec)
+    if spec.get("persist"):
+        return run_persist(spec)
     EoN, sim = import_eon()
     A = Acc()
     W = spec["W"]; depth = spec["depth"]
